@@ -314,12 +314,8 @@ def join_tokens(tokens: Sequence[str], rng=None, ws: Optional[str] = None) -> st
     parts = [rng.choice(WS_CHOICES)]
     for tok in tokens:
         if tok.startswith("[") and rng.random() < 0.1:
-            # whitespace inside the square brackets, between key and repeatability as well
-            inner = tok[1:-1]
-            if "P" in inner and ".." in inner:
-                key, rep = inner.split("P", 1)
-                inner = key + "P" + rng.choice(["", " ", "\t"]) + rep
-            tok = "[" + rng.choice(["", " ", "\t"]) + inner + rng.choice(["", " ", "\n"]) + "]"
+            # whitespace inside the square brackets (not between package key and repeatability: the documentation is silent there)
+            tok = "[" + rng.choice(["", " ", "\t"]) + tok[1:-1] + rng.choice(["", " ", "\n"]) + "]"
         parts.append(tok)
         parts.append(rng.choice(WS_CHOICES))
     return "".join(parts)
